@@ -10,13 +10,31 @@ use std::path::PathBuf;
 /// Compile `root_canon` (named `root_name` relative to `bases[0]`) with the
 /// real loader: cwd = bases[0], load paths = the other bases.
 pub fn real_result(fs_: &SimFs, bases: &[String], root_canon: &str, root_name: &str, fmt: Fmt, tag: &str) -> Res {
+    real_result_renamed(fs_, bases, root_canon, root_name, fmt, tag, &|p| p.to_string())
+}
+
+/// Same, with the top-level directories given other names on the real file
+/// system (`rename` maps a canonical path or base to the real one), so that
+/// the search order of the loader cannot coincide with the sort order of the names.
+pub fn real_result_renamed(
+    fs_: &SimFs,
+    bases: &[String],
+    root_canon: &str,
+    root_name: &str,
+    fmt: Fmt,
+    tag: &str,
+    rename: &dyn Fn(&str) -> String,
+) -> Res {
+    let bases: Vec<String> = bases.iter().map(|b| rename(b)).collect();
+    let bases = &bases[..];
+    let root_canon = &rename(root_canon)[..];
     let dir = PathBuf::from(format!("{}/.scratch/xval/{}-{tag}", vcommon::verif_dir(), std::process::id()));
     let _ = fs::remove_dir_all(&dir);
     for d in fs_.dirs() {
-        fs::create_dir_all(dir.join(d)).expect("xval dir");
+        fs::create_dir_all(dir.join(rename(d))).expect("xval dir");
     }
     for (p, data) in fs_.files() {
-        fs::write(dir.join(p), &**data).expect("xval file");
+        fs::write(dir.join(rename(p)), &**data).expect("xval file");
     }
     let old = std::env::current_dir().ok();
     std::env::set_current_dir(dir.join(&bases[0])).expect("xval chdir");
